@@ -34,6 +34,14 @@ CLAIMED.update({
         design="DESIGN.md section 5, C09"),
 })
 
+CLAIMED.update({
+    "C12": dict(
+        text="Deductive proof (Verus) on the real text of function_is_actually_in_use and compute_functions_actually_in_use: after the closure the published set contains a name if and only if it is reachable in the call tree from main or from a function marked interrupt (soundness by a reachability witness, completeness by closure of every added node plus coverage of every key of the function table).",
+        note="Partial: that every emitted call is recorded in the call tree (generate_function_call) is not under contract yet. Assumed: String as hash key (four axioms, A-spec-hash-str), vstd HashMap/HashSet specs; termination of the recursion unproved.",
+        technique="contract-based deductive verification (Verus: recursive function contract + loop invariants + induction lemma, functions extracted mechanically from /repo)",
+        design="DESIGN.md section 5, C12"),
+})
+
 NOT_APPLICABLE = {
     "C11": "no contract within reach: the property is about the comment/splice scanner in cpp::process (str::split*/byte slicing without vstd specifications), pest WHITESPACE/COMMENT rules (generated parser) and a relation between two whole compilations",
 }
